@@ -14,11 +14,19 @@
 (* before it touches the context: TLC must then find a counter-example            *)
 (* (negative control); so must Fixed = FALSE (a sub-context that swallows the     *)
 (* context touch).                                                                *)
+(* ESCAPES.  Every law is stated on the TEXT of the tree (TextS(t, style), read back by the    *)
+(* model of Compile: escape scanner + argument splitter + recursive Compile).  The groups       *)
+(* "e0" "e1" "e2" "eu" put literals holding LF, TAB, backslash, braces, quotes and blanks at the *)
+(* top level (templates with and without statements), into arguments (quoted and unquoted), two  *)
+(* levels deep, into funcs-file bodies and into arguments of funcs-file calls, each in every     *)
+(* writing style (18: quoting x where the control characters are resolved x needless escapes).   *)
+(* SkipUnesc = "opt" / "noopt" (a template without `{` taken as a literal as it stands by one    *)
+(* of the two compilers) must be refuted.                                                         *)
 EXTENDS ExprOpt
 
 CONSTANTS Thorough, WithBad
 
-VARIABLE c       \* [hdr, g, t]  t: a template
+VARIABLE c       \* [hdr, g, t, sty]  t: a template, sty: the style its text is written in
 
 E  == <<>>
 B0 == <<48>>
@@ -40,8 +48,15 @@ Defs == <<
   [name |-> "u4", body |-> T1(Call("u1", <<T1(Grp(1)), T1(Call("u1", <<T1(Grp(0)), L(B7)>>))>>))],
   [name |-> "u5", body |-> <<Call("coalesce", <<T1(Grp(1)), T1(Key(Kk)), L(<<122>>)>>), Call("time", <<L(KwDelta)>>)>>],
   \* a later definition calling earlier ones: arguments swapped, a quoted literal with two blanks, key pass-through two levels down
-  [name |-> "u6", body |-> <<Call("u2", <<T1(Grp(1)), L(<<113, 32, 32, 114>>), T1(Grp(0))>>), Lit(<<46>>), Call("u5", <<L(E), T1(Grp(0))>>)>>]
+  [name |-> "u6", body |-> <<Call("u2", <<T1(Grp(1)), L(<<113, 32, 32, 114>>), T1(Grp(0))>>), Lit(<<46>>), Call("u5", <<L(E), T1(Grp(0))>>)>>],
+  \* bodies with escapes: {0}\t{1} | <{coalesce {0} "<TAB>\"}\{>\n (an escape inside an argument, a brace and a line feed as
+  \* literals) | a body without any statement: a\tb\\:
+  [name |-> "u7", body |-> <<Grp(0), Lit(<<9>>), Grp(1)>>],
+  [name |-> "u8", body |-> <<Lit(<<60>>), Call("coalesce", <<T1(Grp(0)), L(<<9, 92>>)>>), Lit(<<123, 62, 10>>)>>],
+  [name |-> "u9", body |-> <<Lit(<<97, 9, 98, 92, 58>>)>>]
 >>
+\* the definitions as the funcs file holds them: name and body TEXT
+DefTxt == [i \in 1..Len(Defs) |-> [name |-> Defs[i].name, body |-> TextT(Defs[i].body)]]
 
 \* argument templates: constants, dynamic values, one mixed literal+group argument
 AtomsFull == {L(E), L(B0), L(B7), L(Ba), T1(Grp(0)), T1(Grp(1)), T1(Key(Kk)), <<Lit(Ba), Grp(0)>>}
@@ -72,11 +87,47 @@ StageSet == {Lit(<<120>>), Lit(<<32>>), Grp(0), Key(Kk),
              Call("time", <<L(KwLive)>>), Call("time", <<L(KwNow)>>),
              Call("u3", <<L(Ba)>>)}
 
+\* ---------------------------------------------------------------- the escape universe
+\* literals: a<TAB>b | LF | \ | \n (two characters) | {0} (five characters) | a"b | t:<LF> | } { | <TAB>\
+EscLits == {<<97, 9, 98>>, <<10>>, <<92>>, <<92, 110>>, <<123, 48, 125>>, <<97, 34, 98>>, <<116, 58, 10>>, <<125, 32, 123>>, <<9, 92>>}
+EscFew  == {<<97, 9, 98>>, <<92, 110>>, <<123, 48, 125>>, <<116, 58, 10>>}
+EL1 == IF Thorough THEN EscLits ELSE EscFew
+ELit(Q) == {L(e) : e \in Q}
+EscTop == {<<Lit(e)>> : e \in EscLits}                                                  \* no statement at all
+          \cup {<<Lit(e), Grp(0)>> : e \in EscLits} \cup {<<Grp(1), Lit(e)>> : e \in EscLits}
+          \cup {<<Lit(e), Call("sumi", <<L(<<49>>), L(<<50>>)>>), Lit(e)>> : e \in EscLits}
+          \cup {<<Key(Kk), Lit(e), Call("upper", <<T1(Grp(1))>>), Lit(<<92>>)>> : e \in EscLits}
+          \cup {<<Lit(e)>> \o LiveT \o <<Lit(e)>> : e \in EscFew}
+EscArg1 == ELit(EL1) \cup {<<Lit(e), Grp(0)>> : e \in (IF Thorough THEN EscFew ELSE {<<97, 9, 98>>})}
+           \cup (IF Thorough THEN {<<Grp(0), Lit(e)>> : e \in EscFew} ELSE {})
+EscD1 == C1({"upper", "len", "not", "u3", "u9"}, EscArg1)
+         \cup C2({"eq", "coalesce", "if", "tab", "u7", "u8"}, EscArg1, {L(Ba), T1(Grp(0))})
+         \cup C2({"eq", "coalesce", "unless", "u7", "u1"}, IF Thorough THEN {L(Ba), T1(Grp(0)), L(E)} ELSE {T1(Grp(0)), L(E)}, EscArg1)
+         \cup C2(IF Thorough THEN {"eq", "tab", "u7"} ELSE {"eq", "u7"}, ELit(EscFew), ELit(EscFew))
+         \cup C3(IF Thorough THEN {"if", "switch", "u2"} ELSE {"if", "u2"}, {T1(Grp(0))}, ELit(EscFew), ELit(EscFew))
+EscIn == C1({"upper", "u3"}, ELit(EL1)) \cup C2({"coalesce", "u7"}, {T1(Grp(0))}, ELit(EL1))
+         \cup C2({"if", "u7"}, ELit(EscFew), IF Thorough THEN {T1(Grp(1)), L(Ba)} ELSE {T1(Grp(1))})
+EscD2 == C1(IF Thorough THEN {"lower", "len", "u3", "u8"} ELSE {"lower", "u8"}, EscIn)
+         \cup C2(IF Thorough THEN {"coalesce", "tab", "u7"} ELSE {"coalesce", "u7"}, EscIn, {T1(Grp(1))})
+         \cup C2(IF Thorough THEN {"eq", "u7"} ELSE {"u7"}, IF Thorough THEN {L(B7), T1(Grp(0))} ELSE {T1(Grp(0))}, EscIn)
+\* funcs-file functions with escapes in their bodies, all argument shapes; a definition calling one of them
+EscU == C2({"u7", "u8"}, AtomsFull, AtomsOut) \cup C1({"u8", "u9"}, AtomsFull)
+        \cup {T1(Call("u7", <<T1(Call("u7", <<a, b>>)), T1(Call("u9", <<a>>))>>)) : a \in {L(Ba), T1(Grp(0))}, b \in {T1(Key(Kk)), L(<<9>>)}}
+EscKinds == {"e0", "e1", "e2", "eu"}
+HeadsOf(T) == {t[1].f : t \in T}
+\* one group per head function (a group is expanded by one worker)
+EscGroups == {<<"e0", "">>} \cup {<<"e1", f>> : f \in HeadsOf(EscD1)} \cup {<<"e2", f>> : f \in HeadsOf(EscD2)}
+             \cup {<<"eu", f>> : f \in HeadsOf(EscU)}
+EscStyles(k) == IF k = "e0" \/ (Thorough /\ k = "eu") THEN Styles
+                ELSE IF Thorough THEN {Sty(q, ctl, q = "always") : q \in {"auto", "always", "never"}, ctl \in {"deep", "raw", "top"}}
+                ELSE IF k = "e1" THEN {DefSty, Sty("always", "top", TRUE), Sty("never", "raw", FALSE), Sty("never", "deep", TRUE)}
+                ELSE {DefSty, Sty("always", "top", TRUE), Sty("never", "raw", FALSE)}
+
 Other2 == IF Thorough THEN AtomsOut \cup {T1(Key(Kk))} ELSE {L(B7), T1(Grp(1))}
 Outer2 == IF Thorough THEN H2 \cup U2 ELSE {"sumi", "if", "coalesce", "bucket", "u1", "u2"}
 Groups == {<<"d1", f>> : f \in H1 \cup H2 \cup H3 \cup U1 \cup U2 \cup U3} \cup {<<"vol", "">>, <<"seq", "">>}
           \cup {<<"d2a", f>> : f \in H1 \cup U1} \cup {<<"d2b", f>> : f \in Outer2} \cup {<<"d2c", f>> : f \in Outer2}
-          \cup {<<"d2u", f>> : f \in {"u2", "u4", "u6"}}
+          \cup {<<"d2u", f>> : f \in {"u2", "u4", "u6"}} \cup EscGroups
 
 Trees(g) ==
   LET f == g[2] IN
@@ -86,6 +137,10 @@ Trees(g) ==
          \cup (IF f \in H3 \cup U3 THEN C3({f}, AtomsFull, IF Thorough THEN AtomsFull ELSE AtomsOut \cup {T1(Grp(0))}, AtomsFull) ELSE {})
     [] g[1] = "vol" -> Vol \cup {<<Lit(<<120>>)>> \o v \o <<Lit(<<121>>)>> : v \in Vol}
     [] g[1] = "seq" -> {<<a, b>> : a, b \in StageSet} \cup {<<a, b, d>> : a, b, d \in StageSet}
+    [] g[1] = "e0" -> EscTop
+    [] g[1] = "e1" -> {t \in EscD1 : t[1].f = f}
+    [] g[1] = "e2" -> {t \in EscD2 : t[1].f = f}
+    [] g[1] = "eu" -> {t \in EscU : t[1].f = f}
     [] g[1] = "d2a" -> C1({f}, Inner)
     [] g[1] = "d2b" -> C2({f}, Inner, Other2)
     [] g[1] = "d2c" -> C2({f}, Other2, Inner)
@@ -99,7 +154,9 @@ Trees(g) ==
 Ctx(g0, g1, k) == Base(<<g0, g1>>, <<<<Kk, k>>>>)
 CtxAll == {Ctx(g0, g1, k) : g0, g1 \in Vals, k \in (IF Thorough THEN Vals ELSE {E, Ba})} \cup {EmptyBase}
 CtxD2  == {Ctx(g0, g1, k) : g0 \in Vals, g1 \in {E, B7}, k \in (IF Thorough THEN Vals ELSE {E, Ba})} \cup {EmptyBase}
-CtxOf(g) == IF g[1] \in {"d2a", "d2b", "d2c", "d2u"} THEN CtxD2 ELSE CtxAll
+CtxEsc == {Ctx(g0, g1, k) : g0 \in {E, B7, Ba}, g1 \in {E, B7}, k \in {E, Ba}} \cup {EmptyBase}
+CtxOf(g) == IF g[1] \in {"d2a", "d2b", "d2c", "d2u"} THEN CtxD2 ELSE IF g[1] \in EscKinds THEN CtxEsc ELSE CtxAll
+StylesOf(g) == IF g[1] \in EscKinds THEN EscStyles(g[1]) ELSE {DefSty}
 
 \* ---------------------------------------------------------------- the laws
 K0 == 100                                      \* compile clock
@@ -107,40 +164,74 @@ RECURSIVE UsesClockT(_)
 UsesClockN(nd) == nd.t = "call" /\ (nd.f \in {"time", "badlive", "u3", "u5", "u6"} \/ \E i \in 1..Len(nd.args) : UsesClockT(nd.args[i]))
 UsesClockT(t) == \E i \in 1..Len(t) : UsesClockN(t[i])
 Evals(t) == IF UsesClockT(t) THEN {100, 103} ELSE {103}      \* evaluation clocks
-CDefs == CompDefs(Defs, K0, <<>>)              \* the loaded (compiled) definitions
+CDefs == CompDefsTxt(DefTxt, K0, <<>>)         \* the loaded (compiled) definitions: from the body TEXTS
+CDefsTree == CompDefs(Defs, K0, <<>>)          \* the same from the body trees (HdrOK: equal)
 IsUdfCallIn(t, defs) == Len(t) = 1 /\ t[1].t = "call" /\ DefIdx(t[1].f, defs) > 0
 IsUdfCall(t) == IsUdfCallIn(t, Defs)
+SubOf(t) == SubstT(Defs[DefIdx(t[1].f, Defs)].body, t[1].args)
 
+\* L0  the text denotes the tree (the printer and the model of the scanners agree), also for C09's parse model
 \* L1  optimisation never changes the value (and volatile values follow the clock)
 \* L2  both refine the documented (abstract) value; a funcs-file call is substitution
 \* L3  probe soundness: a stage the probe found constant has that value in every context
-\* L4  explicit inlining: a call of a funcs-file function runs like the substituted body
-LawsOn(t, ctxs) ==
-  LET ctO == CompT(t, TRUE, K0, CDefs)
-      ctN == CompT(t, FALSE, K0, CDefs)
+\* L4  explicit inlining: a call of a funcs-file function runs like the TEXT of the substituted body
+\*     (demanded when that text denotes the substituted tree), compiled by either compiler
+\* txt: the laws are stated on the text (always in the escape groups; in the thorough tier also for the depth-1,
+\* sequence, volatile and re-entrant groups - the texts of the remaining groups hold no escapes, the generator
+\* ExprOpt_Gen checks L0 for every vector it prints, and their trees are compiled directly)
+LawsOn(t, sty, ctxs, txt) ==
+  LET text == TextS(t, sty)
+      rd  == IF txt THEN ReadT(text) ELSE t                                 \* the tree the text denotes
+      cdefs == IF txt THEN CDefs ELSE CDefsTree
+      ctO == CompT(IF txt /\ RawIn(TRUE) THEN ParseT(text, TRUE) ELSE rd, TRUE, K0, cdefs)
+      ctN == CompT(IF txt /\ RawIn(FALSE) THEN ParseT(text, TRUE) ELSE rd, FALSE, K0, cdefs)
       p   == ProbeT(ctN, K0)
-      sub == IF IsUdfCall(t) THEN CompT(SubstT(Defs[DefIdx(t[1].f, Defs)].body, t[1].args), TRUE, K0, CDefs) ELSE <<>>
-  IN \A ctx \in ctxs, e \in Evals(t) :
+      udf == IsUdfCall(t)
+      st  == IF udf THEN SubOf(t) ELSE <<>>
+      stx == TextS(st, sty)
+      srd == IF txt THEN ReadT(stx) ELSE st
+      subOK == udf /\ (txt => NormT(srd, FALSE) = NormT(st, FALSE))
+      subO == IF subOK THEN CompT(IF txt /\ RawIn(TRUE) THEN ParseT(stx, TRUE) ELSE srd, TRUE, K0, cdefs) ELSE <<>>
+      subN == IF subOK /\ txt THEN CompT(IF RawIn(FALSE) THEN ParseT(stx, TRUE) ELSE srd, FALSE, K0, cdefs) ELSE <<>>
+  IN /\ (txt => NormT(rd, FALSE) = NormT(t, FALSE) /\ AgreesWithSyntaxP(text, rd))    \* L0
+     /\ \A ctx \in ctxs, e \in Evals(t) :
        LET vO == ExecT(ctO, ctx, e).v
            vN == ExecT(ctN, ctx, e).v
        IN /\ vO = vN                                                        \* L1
-          /\ AbsOK(ValT(t, ctx, ClkAt(K0, e), Defs), vO)             \* L2
+          /\ AbsOK(ValT(t, ctx, ClkAt(K0, e), Defs), vO)                    \* L2
           /\ (p.n = 0 => vN = p.v)                                          \* L3
-          /\ (IsUdfCall(t) => ExecT(sub, ctx, e).v = vO)                    \* L4
+          /\ (subOK => ExecT(subO, ctx, e).v = vO)                          \* L4
+          /\ (subOK /\ txt => ExecT(subN, ctx, e).v = vO)
 
-LawOK == IF c.hdr THEN WellScoped(Defs) ELSE LawsOn(c.t, CtxOf(c.g))
+HdrOK == /\ WellScoped(Defs)
+         /\ \A i \in 1..Len(Defs) : RoundTrip(Defs[i].body, DefSty)         \* every body text denotes its body
+         /\ (SkipUnesc = "none" => CDefs = CDefsTree)
+LawOK == IF c.hdr THEN HdrOK ELSE LawsOn(c.t, c.sty, CtxOf(c.g), c.g[1] \in EscKinds \/ (Thorough /\ c.g[1] \in {"d1", "seq", "vol", "d2u"}))
 
 \* L5  a volatile stage is never folded: the optimised form of a tree that reaches the clock
 \*     still changes with the clock (checked on the volatile group)
 LawVolatile ==
   (~c.hdr /\ c.g[1] = "vol" /\ c.t \notin {NowT, <<Lit(<<120>>)>> \o NowT \o <<Lit(<<121>>)>>}) =>
-     LET ct == CompT(c.t, TRUE, K0, CDefs) IN ExecT(ct, EmptyBase, 100).v # ExecT(ct, EmptyBase, 103).v
+     LET ct == CompTxt(TextT(c.t), TRUE, K0, CDefs) IN ExecT(ct, EmptyBase, 100).v # ExecT(ct, EmptyBase, 103).v
 
 \* how many (tree, context, clock) cases demand something of the value (for the evidence)
 Demanding == c.hdr \/ \E ctx \in CtxOf(c.g) : Demands(ValT(c.t, ctx, ClkAt(K0, 103), Defs))
 
-Init == c \in {[hdr |-> TRUE, g |-> g, t |-> <<>>] : g \in Groups}
+Hdr(g) == [hdr |-> TRUE, g |-> g, t |-> <<>>, sty |-> DefSty]
+Init == c \in {Hdr(g) : g \in Groups}
 \* the groups in which the negative controls (WithBad = TRUE, Fixed = FALSE) must fail
-InitNeg == c \in {[hdr |-> TRUE, g |-> g, t |-> <<>>] : g \in {gg \in Groups : gg[1] = "d1" /\ gg[2] \in {"badlive", "u3", "u5"}}}
-Next == c.hdr /\ \E t \in Trees(c.g) : c' = [hdr |-> FALSE, g |-> c.g, t |-> t]
+InitNeg == c \in {Hdr(g) : g \in {gg \in Groups : gg[1] = "d1" /\ gg[2] \in {"badlive", "u3", "u5"}}}
+\* the escape controls (SkipUnesc = "opt" / "noopt") must fail in each kind of escape group
+InitG(ks) == c \in {Hdr(g) : g \in {gg \in Groups : gg[1] \in ks}}
+InitEsc == InitG(EscKinds)
+InitE0 == InitG({"e0"})
+InitE1 == InitG({"e1"})
+InitE2 == InitG({"e2"})
+InitEU == InitG({"eu"})
+Next == c.hdr /\ \E t \in Trees(c.g), sty \in StylesOf(c.g) : c' = [hdr |-> FALSE, g |-> c.g, t |-> t, sty |-> sty]
+\* L1 alone (for the controls: optimised = unoptimised is what refutes a skipped unescape step)
+LawL1 == c.hdr \/ LET text == TextS(c.t, c.sty)
+                      ctO == CompTxt(text, TRUE, K0, CDefs)
+                      ctN == CompTxt(text, FALSE, K0, CDefs)
+                  IN \A ctx \in CtxOf(c.g) : ExecT(ctO, ctx, 103).v = ExecT(ctN, ctx, 103).v
 =============================================================================
